@@ -315,6 +315,8 @@ func (e *Enc) collectInputs(fn *ssa.Function, params []Val, entry *State) []Inpu
 
 const preludeSeq = `(declare-sort BSeq 0)
 (declare-fun seqid ((Array (_ BitVec 64) (_ BitVec 8)) (_ BitVec 64) (_ BitVec 64)) BSeq)
+(declare-fun seqlen (BSeq) (_ BitVec 64))
+(declare-const emptyseq BSeq)
 `
 const preludeLex = `(declare-fun lexle (BSeq BSeq) Bool)
 (assert (forall ((a BSeq)) (lexle a a)))
@@ -333,8 +335,21 @@ func (e *Enc) query(o *Obligation, withModel bool) string {
 	if e.usesSeq {
 		b.WriteString(preludeSeq)
 	}
-	if e.usesLex {
+	if e.opaqueReads {
+		b.WriteString(preludeOpaque)
+		var names []string
+		for n := range e.specSorts {
+			names = append(names, n)
+		}
+		sort.Strings(names)
+		for _, n := range names {
+			b.WriteString(fmt.Sprintf("(declare-fun u_%s ((Array (_ BitVec 64) (_ BitVec 8)) (_ BitVec 64) (_ BitVec 64)) %s)\n", n, e.specSorts[n].sort))
+		}
+	}
+	if e.usesLex && !e.seqAbstract {
 		b.WriteString(preludeLex)
+	} else if e.usesLex {
+		b.WriteString("(declare-fun lexle (BSeq BSeq) Bool)\n")
 	}
 	for _, l := range e.decls {
 		b.WriteString(l)
@@ -345,6 +360,59 @@ func (e *Enc) query(o *Obligation, withModel bool) string {
 		b.WriteByte('\n')
 	}
 	if e.usesSeq {
+		// every sequence term: equal ids have equal lengths; all empty sequences are one id
+		seen := map[string]bool{}
+		var lexIDs []string
+		nsid := 0
+		for _, st := range e.seqTerms {
+			if st.at > o.Upto {
+				continue
+			}
+			id := seqID(st.t.arr, st.t.s)
+			if seen[id] {
+				continue
+			}
+			seen[id] = true
+			n := fmt.Sprintf("sid!%d", nsid)
+			nsid++
+			if st.lex {
+				lexIDs = append(lexIDs, n)
+			}
+			b.WriteString(fmt.Sprintf("(declare-const %s BSeq)\n(assert (= %s %s))\n(assert (= (seqlen %s) %s))\n(assert (= (= %s #x0000000000000000) (= %s emptyseq)))\n",
+				n, n, id, n, st.t.s.Len.S, st.t.s.Len.S, n))
+		}
+		for _, os := range e.opaqueSeqs {
+			if os.at <= o.Upto && !seen[os.term] {
+				seen[os.term] = true
+				b.WriteString(fmt.Sprintf("(assert (= (= (seqlen %s) #x0000000000000000) (= %s emptyseq)))\n", os.term, os.term))
+			}
+		}
+		b.WriteString("(assert (= (seqlen emptyseq) #x0000000000000000))\n")
+		if e.seqAbstract && e.usesLex {
+			// relational mode: ground instances of the total order on the compared sequences
+			ids := lexIDs
+			for _, x := range ids {
+				b.WriteString(fmt.Sprintf("(assert (lexle %s %s))\n(assert (lexle emptyseq %s))\n", x, x, x))
+			}
+			for i, x := range ids {
+				for j, y := range ids {
+					if i < j {
+						b.WriteString(fmt.Sprintf("(assert (or (lexle %s %s) (lexle %s %s)))\n(assert (=> (and (lexle %s %s) (lexle %s %s)) (= %s %s)))\n", x, y, y, x, x, y, y, x, x, y))
+					}
+					if i == j {
+						continue
+					}
+					for k, z := range ids {
+						if k == i || k == j {
+							continue
+						}
+						b.WriteString(fmt.Sprintf("(assert (=> (and (lexle %s %s) (lexle %s %s)) (lexle %s %s)))\n", x, y, y, z, x, z))
+					}
+				}
+			}
+		}
+	}
+	if e.usesSeq && !e.seqAbstract {
 		// extensionality of seqid on the pairs of sequences compared so far
 		seen := map[string]bool{}
 		emptyDone := map[string]bool{}
